@@ -242,8 +242,12 @@ pub fn exec_sync_with_fault(inst: &mut Inst, m: DMode, dp: &DriverPlan, ndisp: u
                 if m.parallel() && pool_ok && di % 2 == 0 {
                     let pos = inst.layout.pos();
                     if let Some(&(ts, tg, _)) = pos.get(t) {
-                        if let Some(y) = inst.layout.stages[ts].iter().enumerate().filter(|(gi, _)| *gi != tg).filter_map(|(_, g)| g.last()).next() {
-                            hh.stagger = Some((*y, Duration::from_micros(2500 + 500 * (di as u64 % 3))));
+                        // any other group of the stage (not always the first one, which an executor
+                        // may well run on the dispatching thread itself)
+                        let others: Vec<u32> = inst.layout.stages[ts].iter().enumerate().filter(|(gi, _)| *gi != tg).filter_map(|(_, g)| g.last().cloned()).collect();
+                        if !others.is_empty() {
+                            let y = others[(*t as usize + di) % others.len()];
+                            hh.stagger = Some((y, Duration::from_micros(2500 + 500 * (di as u64 % 3))));
                         }
                     }
                 }
